@@ -116,7 +116,9 @@ def parseSeq (ext : Bool) : Nat → Bool → List Char → List Pat → Option (
           match rest with
           | d :: rest' => parseSeq ext fuel inGroup rest' (acc ++ [.lit d])
           | [] => none
-        else if c = '*' then parseSeq ext fuel inGroup rest (acc ++ [.star])
+        else if c = '*' then
+          -- consecutive stars mean the same as one (`**` is `*` unless GLOBSTAR makes it a segment)
+          parseSeq ext fuel inGroup rest (if acc.getLast? = some .star then acc else acc ++ [.star])
         else if c = '?' then parseSeq ext fuel inGroup rest (acc ++ [.any])
         else if c = '[' then
           match bracket rest with
